@@ -33,7 +33,10 @@ func (node *tagForNode) Execute(ctx *ExecutionContext, writer TemplateWriter) (f
 
 	// Is it a loop in a loop?
 	if parentloop != nil {
-		loopInfo.Parentloop = parentloop.(*tagForLoopInformation)
+		// "forloop" might have been bound to something else (e. g. by the set-tag)
+		if pl, ok := parentloop.(*tagForLoopInformation); ok {
+			loopInfo.Parentloop = pl
+		}
 	}
 
 	// Register loopInfo in public context
